@@ -30,6 +30,8 @@ def clock_now(ip):
     last = getattr(p, 'clock_last', None)
     p.assume(t >= (last if last is not None else epoch_term()))
     p.assume(epoch_term() >= 0)
+    # stated time bound: every clock reading is < 2^62 us (146 000 years) after EPOCH
+    p.assume(t - epoch_term() < (1 << 62) * 1000)
     p.clock_last = t
     readings = getattr(p, 'clock_readings', [])
     readings.append(t)
